@@ -230,6 +230,30 @@ Theorem C16_tone_fits_16_bits_guard_needed :
 Proof. exact tone_fits_16_bits_guard_needed. Qed.
 Print Assumptions C16_tone_fits_16_bits_guard_needed.
 
+(* ---- tone(pin, 0).  "A frequency <= 0 never starts a tone", read on the pin: FALSE - a frequency in
+   (0, 1/2) passes the firmware's `> 0.0f` tests and is rounded to tone(pin, 0) (play_tone(0.25)). *)
+Theorem C16_tone_zero_refuted :
+  exists pin neg tbl st f, (0 < f)%Q /\ snd (dstep pin neg tbl st (PlayTone f None)) = [Tone pin 0].
+Proof. exact tone_zero_refuted. Qed.
+Print Assumptions C16_tone_zero_refuted.
+
+Theorem C16_tone_zero_iff : forall f, (0 < f)%Q -> (tone_of f = 0 <-> (f < 1 # 2)%Q).
+Proof. exact tone_zero_iff. Qed.
+Print Assumptions C16_tone_zero_iff.
+
+(* guard: no frequency argument in (0, 1/2) (a beep without argument: the last frequency; a sweep: both
+   ends <= 0 or both >= 1/2; a melody: the notes of its score) => every tone() argument is >= 1 *)
+Theorem C16_no_zero_tone_partial : forall pin neg tbl st o,
+  half_guard tbl (get_last_frequency st) o = true ->
+  Forall (fun t => 1 <= t) (tones (snd (dstep pin neg tbl st o))).
+Proof. exact no_zero_tone. Qed.
+Print Assumptions C16_no_zero_tone_partial.
+
+Theorem C16_generated_melodies_in_half_guard :
+  forallb (fun kv => forallb (fun fb => audible_arg (fst fb)) (snd (snd kv))) emitter_melodies = true.
+Proof. exact generated_melodies_audible. Qed.
+Print Assumptions C16_generated_melodies_in_half_guard.
+
 (* ---- non-vacuity *)
 Definition q (n : Z) : Q := Qmake n 1.
 
@@ -289,3 +313,12 @@ Example C16_nonvacuous_bounded :
     = [440; 32988; 65535].
 Proof. vm_compute. repeat split. Qed.
 Print Assumptions C16_nonvacuous_bounded.
+
+Example C16_nonvacuous_half_guard :
+  half_guard emitter_melodies (q 440) (Sweep (q 1) (q 880) (q 50) (q 5)) = true /\
+  half_guard emitter_melodies (q 440) (Sweep (q 1) (q 0) (q 50) (q 5)) = false /\
+  half_guard emitter_melodies (Qmake 1 4) (Beep None (q 1) (q 1) (q 2)) = false /\
+  half_guard emitter_melodies (q 440) (Melody n_notify None) = true /\
+  tones (snd (dstep 8 neg_literal emitter_melodies (init (q 440)) (Sweep (q 1) (q 0) (q 50) (q 5)))) = [1; 1; 1; 0].
+Proof. vm_compute. repeat split. Qed.
+Print Assumptions C16_nonvacuous_half_guard.
